@@ -16,7 +16,7 @@ ERR = {
     "ErrInvalidAccount": "EInvalidAccount", "ErrTooManyAddresses": "ETooManyAddresses",
     "ErrDuplicateAddress": "EDuplicateAddress", "ErrBlockNotFound": "EBlockNotFound",
     "ErrAddressNotFound": "EAddressNotFound", "ErrBirthdayBlockNotSet": "EBirthdayBlockNotSet",
-    "ErrDatabase": "EDatabase", "ErrLocked": "ELocked", "panic": "EPanic",
+    "ErrDatabase": "EDatabase", "ErrLocked": "ELocked", "ErrWatchingOnly": "EWatchingOnly", "panic": "EPanic",
 }
 FATE = {"commit": "Commit", "abort": "AbortCaller", "dryrun": "AbortDryRun", "failcommit": "CommitFails"}
 CODES = {1: "model:operation_outcome", 2: "model:running_manager_answers", 3: "model:fresh_manager_answers",
@@ -77,7 +77,7 @@ def r_query(q):
 
 READS = {"lookup", "last", "props", "lookupname", "acctname", "lastacct", "synced", "blockhash", "birthday", "bdayblock"}
 # operations and queries of the root manager: part of every scope's projection of a two-scope history
-ROOT = {"setsynced", "setsyncednil", "setbirthday", "setbdayblock", "lock", "unlock", "synced", "blockhash", "birthday", "bdayblock"}
+ROOT = {"setsynced", "setsyncednil", "setbirthday", "setbdayblock", "lock", "unlock", "convert", "synced", "blockhash", "birthday", "bdayblock"}
 
 
 def r_op(o):
@@ -115,6 +115,8 @@ def r_op(o):
         return "OUnlock"
     if k == "invalidate":
         return "OInvalidate %s" % cN(o["acct"])
+    if k == "convert":
+        return "OConvert"
     raise ValueError("unknown op " + k)
 
 
@@ -205,15 +207,17 @@ class C08(Check):
             "transaction, cold and warm caches, followed by a committed issuance; same-transaction patterns; imported xpub accounts "
             "- NewAccountWatchingOnly with/without fingerprint and address-schema override - cached, used, renamed, EXTENDED (cold, warm, "
             "locked, rolled back), number reuse; the LOCKED manager: issuance / extension / last-address queries / refused operations / "
-            "lock inside a rolled-back transaction / Unlock re-loading evicted accounts; InvalidateAccountCache: what "
+            "lock inside a rolled-back transaction / Unlock re-loading evicted accounts; ConvertToWatchingOnly: after different numbers of "
+            "receiving and change addresses, with imported accounts / keys / scripts, while locked, after an eviction, rolled back by every fate, "
+            "followed by issuance, extension, rename and what the converted manager refuses; InvalidateAccountCache: what "
             "wallet.ImportAccountDryRun does to the manager with and without its eviction, eviction curing an eager update, evict-and-reload "
             "inside a rolled-back transaction; two key scopes of one manager in one transaction); 12 (thorough 150) histories through the real "
             "wallet.Wallet on a funded wallet: NewAddress, NewChangeAddress, CreateSimpleTx, CreateSimpleTx(dryRun=true), ImportAccount, "
-            "ImportAccountDryRun, issuance from imported accounts; random histories of 3-8 (thorough 3-12) transactions x 1-3 operations, "
+            "ImportAccountDryRun, issuance from imported accounts, Wallet.InitAccounts(watchOnly) = the wallet's ConvertToWatchingOnly call site; random histories of 3-8 (thorough 3-12) transactions x 1-3 operations, "
             "fate commit/caller abort/ErrDryRunRollBack/failed commit, three generator modes (wild; aborted transactions hold only "
             "issuance+reads = the dry-run scenario; aborted transactions hold only operations without eager memory updates); half of the "
             "random histories import xpub accounts (5 xpubs per scope derived in the harness from other seeds, each imported at most once), "
-            "a third lock/unlock the manager between and inside transactions, a sixth address two key scopes, all may evict accounts. After "
+            "a third lock/unlock the manager between and inside transactions, a fifth convert it to watching-only, a sixth address two key scopes, all may evict accounts. After "
             "EVERY transaction the file is copied (DB.Copy), opened with a fresh waddrmgr.Open BROUGHT TO THE LOCK STATE OF THE RUNNING "
             "MANAGER, and both managers answer: AccountProperties/AccountName/LastExternal/LastInternalAddress for every account and the next "
             "unused number, the imported account, LookupAccount for every name, LastAccount, Address()+Used() for every address issued by a "
@@ -223,8 +227,11 @@ class C08(Check):
             "account and AddrType + DerivationInfo fingerprint of every address and last address; compared between running and restarted manager "
             "in addition: the full DerivationInfo (scope, InternalAccount, Account, Branch, Index) and the PubKey bytes. running vs restarted = the "
             "oracle. non-trivial = history holds a rolled-back transaction with a write operation AND a later committed transaction; distinct by input")
-    ASSUMPTIONS = ["the manager is not itself watch-only; accounts are default or imported-xpub (watch-only) accounts; Lock/Unlock (right "
-                   "passphrase) are in the alphabet, ChangePassphrase / ConvertToWatchingOnly / NewScopedKeyManager are not",
+    ASSUMPTIONS = ["the manager starts as an ordinary one and may be converted (ConvertToWatchingOnly); accounts are default or imported-xpub "
+                   "(watch-only) accounts; Lock/Unlock (right passphrase) are in the alphabet; ChangePassphrase and NewScopedKeyManager are "
+                   "not (the first changes nothing the queries report but which passphrase opens/unlocks the manager - the harness would have "
+                   "to follow two passphrases per history through rolled-back changes, C10/C05 own that; the second adds a component the "
+                   "one-scope model has no state for)",
                    "two key scopes of one manager are checked by running the one-scope model once per scope on the operations of that "
                    "scope plus the root manager's (sync state, birthday, lock state): scoped managers share no cache; in two-scope "
                    "histories no import moves the (shared) start block",
